@@ -2,6 +2,7 @@ package main
 
 import (
 	"fmt"
+	"go/constant"
 	"go/token"
 	"go/types"
 	"sort"
@@ -16,7 +17,7 @@ func init() {
 	register(&Rule{ID: "C19.CAND", Min: 4, Doc: "candidates are row values plus include values not structurally equal to one present; exclude values are matched candidate-first", Run: runC19Cand})
 	register(&Rule{ID: "C06.ANY", Min: 15, Doc: "wherever a type test can lead to a diagnostic, `any` is accepted without one", Run: runC06Any})
 	register(&Rule{ID: "C06.ASSIGN", Min: 7, Doc: "every Assignable accepts `any`; every Merge falls back to `any`", Run: runC06Assign})
-	register(&Rule{ID: "C06.OPEN", Min: 4, Doc: "an undefined property is only reported for a strict object", Run: runC06Open})
+	register(&Rule{ID: "C06.OPEN", Min: 5, Doc: "an undefined property is only reported for a strict object", Run: runC06Open})
 	register(&Rule{ID: "C06.CMP", Min: 100, Doc: "the operand table of the comparison operators is monotone under replacing an operand by any", Run: runC06Cmp})
 	register(&Rule{ID: "C06.LOOSE", Min: 2, Doc: "a scope built from an expression of unknown type is open, not strict", Run: runC06Loose})
 }
@@ -724,31 +725,149 @@ func runC06Open(c *Ctx) {
 			}
 		})
 	}
-	// IsStrict itself: Mapped == nil
+	// IsStrict itself: the value of Mapped == nil on every return, with nothing else combined in
 	is := p.Method("ObjectType", "IsStrict")
 	if is == nil {
 		c.anchorMissing("(*ObjectType).IsStrict")
 		return
 	}
-	okStrict := false
-	eachInstr(is, func(_ *ssa.BasicBlock, _ int, in ssa.Instruction) {
-		if bo, ok := in.(*ssa.BinOp); ok && bo.Op == token.EQL && (isNilConst(bo.X) || isNilConst(bo.Y)) {
-			v := bo.X
-			if isNilConst(v) {
-				v = bo.Y
+	mappedOf := func(v ssa.Value, recv ssa.Value) bool {
+		ld, ok := v.(*ssa.UnOp)
+		if !ok || ld.Op != token.MUL {
+			return false
+		}
+		fa, ok := ld.X.(*ssa.FieldAddr)
+		return ok && fa.X == recv && fieldAddrName(fa) == "ObjectType.Mapped"
+	}
+	mappedIsNil := func(v ssa.Value, recv ssa.Value) (match, negated bool) {
+		bo, ok := v.(*ssa.BinOp)
+		if !ok || (bo.Op != token.EQL && bo.Op != token.NEQ) {
+			return false, false
+		}
+		if (isNilConst(bo.Y) && mappedOf(bo.X, recv)) || (isNilConst(bo.X) && mappedOf(bo.Y, recv)) {
+			return true, bo.Op == token.NEQ
+		}
+		return false, false
+	}
+	if other := returnsOtherThan(p, is, mappedIsNil, 0); len(other) == 0 {
+		c.ok("(*ObjectType).IsStrict|definition", is.Pos(), "every return yields the value of Mapped == nil")
+	} else {
+		c.bad("(*ObjectType).IsStrict|definition", is.Pos(), "IsStrict is no longer exactly `Mapped == nil`: "+strings.Join(other, "; ")+": an object is taken for strict (or open) by something other than its Mapped type")
+	}
+	// IsLoose: the object is open to any property exactly when Mapped is AnyType
+	if il := p.Method("ObjectType", "IsLoose"); il != nil {
+		mappedIsAny := func(v ssa.Value, recv ssa.Value) (match, negated bool) {
+			ex, ok := v.(*ssa.Extract)
+			if !ok || ex.Index != 1 {
+				return false, false
 			}
-			if ld, ok := v.(*ssa.UnOp); ok {
-				if fa, ok := ld.X.(*ssa.FieldAddr); ok && fieldAddrName(fa) == "ObjectType.Mapped" {
-					okStrict = true
-				}
+			ta, ok := ex.Tuple.(*ssa.TypeAssert)
+			if !ok || !ta.CommaOk || typeStr(ta.AssertedType) != "AnyType" || !mappedOf(ta.X, recv) {
+				return false, false
+			}
+			return true, false
+		}
+		if other := returnsOtherThan(p, il, mappedIsAny, 0); len(other) == 0 {
+			c.ok("(*ObjectType).IsLoose|definition", il.Pos(), "every return yields whether Mapped is AnyType")
+		} else {
+			c.bad("(*ObjectType).IsLoose|definition", il.Pos(), "IsLoose is no longer exactly `Mapped is AnyType`: "+strings.Join(other, "; "))
+		}
+	}
+}
+
+// returnsOtherThan: the returns of fn (a method with one boolean result) whose value is not exactly the value of the
+// condition that `is` recognises on the receiver (match; negated when the value is its opposite). A constant is the
+// value of the condition where the condition decided the branch; a phi is judged edge by edge; a call of another method
+// on the same receiver is followed.
+func returnsOtherThan(p *Prog, fn *ssa.Function, is func(v ssa.Value, recv ssa.Value) (match, negated bool), depth int) []string {
+	if len(fn.Blocks) == 0 || len(fn.Params) == 0 {
+		return []string{fn.Name() + " has no body"}
+	}
+	recv := ssa.Value(fn.Params[0])
+	pos := func(b *ssa.BasicBlock) string {
+		for i := len(b.Instrs) - 1; i >= 0; i-- {
+			if at := b.Instrs[i].Pos(); at.IsValid() {
+				return p.Pos(at)
 			}
 		}
-	})
-	if okStrict {
-		c.ok("(*ObjectType).IsStrict|definition", is.Pos(), "strict == (Mapped == nil)")
-	} else {
-		c.bad("(*ObjectType).IsStrict|definition", is.Pos(), "IsStrict is no longer `Mapped == nil`")
+		return fn.Name()
 	}
+	// decided: the conditions on the receiver whose outcome is known at the end of block b (with the value of the condition)
+	decided := func(b *ssa.BasicBlock, viaSucc *ssa.BasicBlock) (known, val bool) {
+		conds := controllingConds(b)
+		if viaSucc != nil {
+			if ifi, ok := b.Instrs[len(b.Instrs)-1].(*ssa.If); ok && b.Succs[0] != b.Succs[1] {
+				conds[ifi] = b.Succs[0] == viaSucc
+			}
+		}
+		for ifi, outcome := range conds {
+			cond, flip := ifi.Cond, false
+			for {
+				u, ok := cond.(*ssa.UnOp)
+				if !ok || u.Op != token.NOT {
+					break
+				}
+				cond, flip = u.X, !flip
+			}
+			if m, neg := is(cond, recv); m {
+				return true, outcome != (neg != flip)
+			}
+		}
+		return false, false
+	}
+	var out []string
+	var judge func(v ssa.Value, b *ssa.BasicBlock, viaSucc *ssa.BasicBlock, negate bool, seen map[ssa.Value]bool)
+	judge = func(v ssa.Value, b *ssa.BasicBlock, viaSucc *ssa.BasicBlock, negate bool, seen map[ssa.Value]bool) {
+		if m, neg := is(v, recv); m {
+			if neg != negate {
+				out = append(out, "the opposite is returned at "+pos(b))
+			}
+			return
+		}
+		switch x := v.(type) {
+		case *ssa.UnOp:
+			if x.Op == token.NOT {
+				judge(x.X, b, viaSucc, !negate, seen)
+				return
+			}
+		case *ssa.Const:
+			if x.Value != nil && x.Value.Kind() == constant.Bool {
+				if known, val := decided(b, viaSucc); known && val == (constant.BoolVal(x.Value) != negate) {
+					return
+				}
+				out = append(out, x.Value.String()+" is returned at "+pos(b)+" on a path that the condition did not decide that way")
+				return
+			}
+		case *ssa.Phi:
+			if seen[x] {
+				return
+			}
+			seen[x] = true
+			for i, e := range x.Edges {
+				judge(e, x.Block().Preds[i], x.Block(), negate, seen)
+			}
+			return
+		case *ssa.Call:
+			g := staticCallee(&x.Call)
+			if g != nil && inModule(g) && depth < 2 && len(x.Call.Args) > 0 && x.Call.Args[0] == recv && g.Signature.Recv() != nil && g.Signature.Results().Len() == 1 && !negate {
+				out = append(out, returnsOtherThan(p, g, is, depth+1)...)
+				return
+			}
+		}
+		out = append(out, "a value that combines or replaces the condition is returned at "+pos(b))
+	}
+	for _, b := range fn.Blocks {
+		ret, ok := b.Instrs[len(b.Instrs)-1].(*ssa.Return)
+		if !ok {
+			continue
+		}
+		if len(ret.Results) != 1 {
+			out = append(out, "not a single result at "+pos(b))
+			continue
+		}
+		judge(ret.Results[0], b, nil, false, map[ssa.Value]bool{})
+	}
+	return out
 }
 
 // ---- C06.CMP ----
